@@ -366,3 +366,41 @@ def absent_key_values(chk: Check, fi: FunctionInfo, key: str, ctor_names: tuple[
             for v in vals:
                 res.append((v, node))
     return res
+
+
+def strict_int_guarded(g: Graph, n: Node, ic: ast.Call) -> bool:
+    """``int(<text>)`` at node ``n`` is reachable only behind a test that the
+    text consists of ASCII digits (`re.fullmatch(r"...[0-9]...", text)` or
+    `text.isascii() and text.isdigit()`): int() alone also accepts '2_0',
+    '+20', ' 20' and non-ASCII digits."""
+    if not ic.args:
+        return False
+    var = norm(ic.args[0])
+    blocked = set()
+    for t in g.nodes:
+        if t.kind != "test" or t.ast is None or t.stack != n.stack:
+            continue
+        a, flip = t.ast, False
+        while isinstance(a, ast.UnaryOp) and isinstance(a.op, ast.Not):
+            a, flip = a.operand, not flip
+        txt = norm(a)
+        strict = False
+        if isinstance(a, ast.Call) and (dotted(a.func) or "").split(".")[-1] in ("fullmatch", "match") and var in txt and any(isinstance(x, ast.Constant) and isinstance(x.value, str) and ("[0-9]" in x.value or "[1-6][0-9]" in x.value) for x in walk(a)):
+            strict = True
+        if isinstance(a, ast.BoolOp) and isinstance(a.op, ast.And) and var in txt and ".isascii()" in txt and (".isdigit()" in txt or ".isdecimal()" in txt):
+            strict = True
+        if strict:
+            lab = "F" if flip else "T"
+            blocked |= {(t.id, b, l2) for b, l2 in g.succ[t.id] if l2 == lab}
+    if blocked and n.id not in g.reach([g.entry.id], blocked_edges=blocked):
+        return True
+    # `X.isascii() and X.isdigit()` is split into one test node per operand by the CFG:
+    # both must be passed on their true edge
+    def must_pass(names):
+        edges = set()
+        for t in g.nodes:
+            if t.kind == "test" and t.ast is not None and t.stack == n.stack and isinstance(t.ast, ast.Call) and method_call(t.ast) and method_call(t.ast)[1] in names and norm(method_call(t.ast)[0]) == var:
+                edges |= {(t.id, b, l2) for b, l2 in g.succ[t.id] if l2 == "T"}
+        return bool(edges) and n.id not in g.reach([g.entry.id], blocked_edges=edges)
+
+    return must_pass(("isascii",)) and must_pass(("isdigit", "isdecimal"))
